@@ -1,7 +1,7 @@
 (* C04: how often the repeat forms run their body and which values the loop variable takes,
    proved on the reference semantics (Lang/Sem.v). *)
 From Coq Require Import ZArith String List Bool PrimFloat Lia QArith Sorted.
-From Bardolph Require Import Base.PyFloat Gen.Codes Time.TimeSpec Time.TimePattern
+From Bardolph Require Import Base.PyFloat Gen.Codes Time.TimeSpec Time.TimeCore
   Lang.Value Lang.Units0 Lang.World Lang.Regs Lang.Devices Lang.Builtins Lang.Syntax Lang.Sem Lang.SemProofs Lang.Scope.
 Open Scope string_scope.
 Open Scope list_scope.
